@@ -228,13 +228,10 @@ func decodeEquity(s *rlp.Stream) (interface{}, error) {
 }
 
 func decodeSigners(s *rlp.Stream) (interface{}, error) {
-	if isNil, err := decodeNil(s); isNil || err != nil {
-		return nil, err
-	} else {
-		result := make(types.Signers, 0)
-		err := s.Decode(&result)
-		return result, err
-	}
+	// an empty list of signers is a types.Signers too: redoSigner expects nothing else
+	result := make(types.Signers, 0)
+	err := s.Decode(&result)
+	return result, err
 }
 
 func decodeProfileChangeLogExtra(s *rlp.Stream) (interface{}, error) {
